@@ -492,7 +492,15 @@ fn check(t: &Target, c: &Case) -> Verdict {
                 continue;
             }
         }
+        if c.only.is_none() {
+            if let Some(h) = inner_skip() {
+                if i as u64 <= h {
+                    continue;
+                }
+            }
+        }
         n += 1;
+        set_case_hint(i as u64);
         if std::env::var_os("NV_TRACE_MUTANT").is_some() {
             eprintln!("mutant #{i} {m:?}");
         }
